@@ -163,16 +163,29 @@ class Obligation:
         return self.smt2
 
 
+RLIMIT_EMATCH = int(os.environ.get('PYVC_RLIMIT', 3000000))
+RLIMIT_DEFAULT = RLIMIT_EMATCH // 3
+
+
 def _z3_check(smt2, timeout_ms, ematch_only):
     ctx = z3.Context()
     s = z3.Solver(ctx=ctx)
     s.set('timeout', timeout_ms)
+    # deterministic resource budget (verdicts do not flip under machine load); queries that discharge use < 1e5 units
+    s.set('rlimit', RLIMIT_EMATCH if ematch_only else RLIMIT_DEFAULT)
     if ematch_only:
         s.set('smt.mbqi', False)
         s.set('smt.auto_config', False)
     s.from_string(smt2)
     t0 = time.time()
-    r = s.check()
+    import threading
+    timer = threading.Timer(timeout_ms / 1000.0 + 1.0, ctx.interrupt)     # hard stop: z3's soft timeout can overrun
+    timer.daemon = True
+    timer.start()
+    try:
+        r = s.check()
+    finally:
+        timer.cancel()
     dt = time.time() - t0
     model = None
     if r == z3.sat:
@@ -188,12 +201,16 @@ def solve_smt2_z3api(smt2, timeout_ms, expect_sat=False):
     """Two attempts: pure E-matching (answers at once when instantiation saturates), then z3's default
     configuration.  'unknown' with saturated instantiation is reported with reason 'saturated': the obligation is
     not provable from the axioms by instantiation and a candidate counter-model exists."""
+    if expect_sat:
+        # vacuity guard: is a contradiction derivable from the hypotheses?  (budget 3 s; a model is not required)
+        r, dt, model, reason = _z3_check(smt2, min(timeout_ms, 3000), True)
+        if r in ('unsat', 'sat'):
+            return r, dt, model, reason
+        return 'unknown', dt, None, 'saturated'
     r, dt, model, reason = _z3_check(smt2, timeout_ms, True)
     if r in ('unsat', 'sat'):
         return r, dt, model, reason
     saturated = 'incomplete quantifiers' in reason
-    if saturated and expect_sat:
-        return 'unknown', dt, None, 'saturated'
     r2, dt2, model2, reason2 = _z3_check(smt2, min(timeout_ms, 4000) if saturated else timeout_ms, False)
     if r2 in ('unsat', 'sat'):
         return r2, dt + dt2, model2, reason2
@@ -231,7 +248,7 @@ def _worker(args):
     extra = {}
     if expect_sat and res == 'unknown' and reason == 'saturated':
         pass
-    elif res == 'unknown' and 'cvc5' in backends:
+    elif res == 'unknown' and 'cvc5' in backends and '(lambda ' not in smt2:
         r2, dt2 = solve_smt2_cli(smt2, 'cvc5', 5.0 if reason == 'saturated' else timeout_ms / 1000.0)
         extra['cvc5'] = (r2, dt2)
         if r2 == 'unsat' or (expect_sat and r2 == 'sat'):
